@@ -151,6 +151,20 @@ func m1(k string, v Val) Val { return Map(KV{[]byte(k), v}) }
 // GenSelector draws a selector spec (mostly well-formed; recursive edges only under a recursive clause
 // unless `sloppy`), over all clause kinds.
 func GenSelector(r *Rand, g *Graph, depth int, inRec bool, sloppy bool) Val {
+	if depth == 0 && r.Chance(1, 14) {
+		// directed: compositions of recursive edges with unions and explore-all, where a sibling of a bare edge reaches
+		// an edge one step later, under small recursion limits (the limit runs out at different members)
+		edge := m1("@", Map())
+		all := func(x Val) Val { return m1("a", Map(KV{[]byte(">"), x})) }
+		lim := m1("depth", Int(int64(r.Intn(4))))
+		seqs := []Val{
+			all(m1("|", List(edge, all(edge)))),
+			m1("|", List(m1(".", Map()), all(m1("|", List(edge, all(edge)))))),
+			all(all(m1("|", List(all(edge), edge)))),
+			m1("|", List(edge, all(m1("|", List(edge, m1(".", Map())))))),
+		}
+		return m1("R", Val{K: '{', M: []KV{{[]byte("l"), lim}, {[]byte(":>"), seqs[r.Intn(len(seqs))]}}})
+	}
 	k := r.Intn(13)
 	if depth >= 4 {
 		k = r.Intn(2)
